@@ -8,6 +8,7 @@ from pyvc.engine import MDict, TokenM, PyRaise, OutOfReach
 from pyvc.absx import AbsColl, AbsMap, Seg, LoopSpec, Ghost
 from contracts.validator_c import mk_validator, SchemaGhost, ErrGhost
 from contracts.parser_c import LalrGhost, FpGhost
+import contracts.comments_c  # noqa: F401  (MapfileToDict.transform call-site contract)
 
 
 # ---------------------------------------------------------------------------------------------
@@ -242,15 +243,6 @@ def _load_at(self, E, p, fp):
 from contracts.parser_c import ParseFile, Load as ParserLoad  # noqa: E402
 ParseFile.at_call = _parse_file_at
 ParserLoad.at_call = _load_at
-
-
-@register
-class Transform(Contract):
-    target = "mappyfile.transformer.MapfileToDict.transform"
-    cases = []
-
-    def at_call(self, E, m, tree):
-        return Seg("transform", m, tree)
 
 
 def _loader_contract(fname, how):
